@@ -2,7 +2,8 @@
 """Run every seeded change under /verif/seeded against the quick check of its property (and of the extra properties given
 in its meta.json 'also'), record the verdicts in meta.json['detected_by'] and print a table. /repo must be clean."""
 import json, os, subprocess, sys
-V = "/verif"
+V = os.path.dirname(os.path.dirname(os.path.abspath(__file__)))
+REPO = os.environ.get("VERIF_REPO", "/repo")
 only = sys.argv[1:]
 rows = []
 for d in sorted(os.listdir(os.path.join(V, "seeded"))):
@@ -11,9 +12,9 @@ for d in sorted(os.listdir(os.path.join(V, "seeded"))):
         continue
     meta = json.load(open(os.path.join(p, "meta.json")))
     props = [meta["property"]] + meta.get("also", [])
-    if subprocess.run("git -C /repo status --porcelain", shell=True, capture_output=True, text=True).stdout.strip():
-        sys.exit("/repo is not clean")
-    if subprocess.run(["git", "-C", "/repo", "apply", os.path.join(p, "patch.diff")]).returncode != 0:
+    if subprocess.run("git -C %s status --porcelain" % REPO, shell=True, capture_output=True, text=True).stdout.strip():
+        sys.exit(REPO + " is not clean")
+    if subprocess.run(["git", "-C", REPO, "apply", os.path.join(p, "patch.diff")]).returncode != 0:
         rows.append((d, "PATCH DOES NOT APPLY", "")); continue
     det = []
     try:
@@ -23,7 +24,7 @@ for d in sorted(os.listdir(os.path.join(V, "seeded"))):
             first = lines[0][:260] if lines else "(no verdict)"
             det.append({"check": pr, "exit": r.returncode, "first_line": first})
     finally:
-        subprocess.run("git -C /repo checkout -- . && git -C /repo clean -fdq", shell=True)
+        subprocess.run("git -C %s checkout -- . && git -C %s clean -fdq" % (REPO, REPO), shell=True)
     meta["detected_by"] = det
     json.dump(meta, open(os.path.join(p, "meta.json"), "w"), indent=1)
     rows.append((d, " ".join("%s:%s" % (x["check"], "DETECTED" if x["exit"] == 1 else ("missed" if x["exit"] == 0 else "error")) for x in det), det[0]["first_line"][:150]))
